@@ -985,3 +985,22 @@ func init() {
 	reg("(encoding/binary.bigEndian).Uint32", get(4, false))
 	reg("(encoding/binary.bigEndian).Uint64", get(8, false))
 }
+
+func init() {
+	reg("("+pkMath+".Int).BigInt", func(p *Path, _ *frame, a []Value, _ token.Pos) Value {
+		if a[0].(IntV).Nil {
+			return (*Value)(nil)
+		}
+		c := new(Value)
+		*c = Poison{"big.Int"}
+		return c
+	})
+	reg("("+pkSDK+".Dec).BigInt", func(p *Path, _ *frame, a []Value, _ token.Pos) Value {
+		if a[0].(DecV).Nil {
+			return (*Value)(nil)
+		}
+		c := new(Value)
+		*c = Poison{"big.Int"}
+		return c
+	})
+}
